@@ -43,6 +43,19 @@ Theorem C07_concurrent_counters_unique :
       (exists r', ds_row (fst res) = Some r' /\ same_session r r' /\ (d_fup r <= d_fup r')%N) /\
       NoDup (counters (snd res)) /\ Forall (fun x => (d_fdn r <= x)%N) (counters (snd res)).
 Proof. exact concurrent_uplinks_counters. Qed.
+(* The quantifier in full - every history AND every interleaving. A history whose events are batches of uplinks of one
+   device handled at the same time (any frames, each batch under its own schedule, cut after any number of operations)
+   and submissions of messages, from any state with a data-typed buffer entry, while the session has counters left:
+   over the WHOLE history the FCnt fields of the frames that leave are pairwise different, each lies between the
+   stored counter at the start and that counter plus the number of handlers, and the stored uplink counter never
+   moves back. *)
+Theorem C07_histories_of_concurrent_uplinks :
+  forall (E D : list N -> list N -> list N) apps evs st r G,
+    ds_row st = Some r -> fb_down st -> d_fdn r = (G mod 65536)%N -> (G + N.of_nat (total evs) <= 65536)%N -> Forall bev_ok evs ->
+    (exists r', ds_row (fst (brun E D apps st evs)) = Some r' /\ same_session r r' /\ (d_fup r <= d_fup r')%N) /\
+    NoDup (counters (snd (brun E D apps st evs))) /\
+    Forall (fun x => (G <= x < G + N.of_nat (total evs))%N) (counters (snd (brun E D apps st evs))).
+Proof. exact batches_counters. Qed.
 (* the interleaving of two handlers that the forced-schedule correspondence executes on the real pipeline *)
 Theorem C07_two_handlers_counters_unique :
   forall (E D : list N -> list N -> list N) apps f1 rx1 n1 now1 f2 rx2 n2 now2,
@@ -64,3 +77,4 @@ Print Assumptions C07_seq.
 Print Assumptions C07_concurrent_counters_unique.
 Print Assumptions C07_two_handlers_counters_unique.
 Print Assumptions C07_raw_frame_carries_its_counter.
+Print Assumptions C07_histories_of_concurrent_uplinks.
